@@ -127,13 +127,20 @@ func C19(r *core.Run) {
 		incPath := filepath.Join(wdir, "regex-assembly/include/inc.ra")
 		res := c19Out{Kinds: map[string]int{}, Sites: map[string]*c19Site{}}
 		distinct := map[string]struct{}{}
+		incDirty := false
 		run := func(mode, text string) {
 			r.Inflight(mode + ":" + text)
 			var o inproc.Outcome
 			if mode == "stdin" {
+				// a program that includes inc must see the file the CLI replay will see (empty), not the last case's
+				if incDirty && strings.Contains(text, "inc") {
+					writeRetry(incPath, "")
+					incDirty = false
+				}
 				o = root.Generate(text)
 			} else {
 				writeRetry(incPath, text)
+				incDirty = text != ""
 				o = root.Generate("##!> include inc\n")
 			}
 			res.Evals++
